@@ -188,7 +188,7 @@ pub fn jalphabet(dt: &DataType, o: &JOpts) -> Vec<V> {
             .collect(),
         Utf8 | LargeUtf8 | Utf8View => jstrings_a1().into_iter().map(V::S).collect(),
         Binary | LargeBinary | BinaryView => vec![V::B(vec![]), V::B(vec![0]), V::B(vec![0xff]), V::B(vec![0x0a, 0xb0]), V::B(b"\"\\".to_vec())],
-        FixedSizeBinary(n) => vec![V::B(vec![0; *n as usize]), V::B(vec![0xff; *n as usize]), V::B((0..*n as u8).map(|i| 0x1f + i * 0x60).collect())],
+        FixedSizeBinary(n) => vec![V::B(vec![0; *n as usize]), V::B(vec![0xff; *n as usize]), V::B((0..*n as usize).map(|i| (0x1f + i * 0x60) as u8).collect())],
         Duration(_) => vec![V::I(0), V::I(1), V::I(-1), V::I(1_000_000_007)],
         List(f) | LargeList(f) | ListView(f) | LargeListView(f) => {
             let a = with_null(f);
@@ -585,9 +585,70 @@ fn col_alpha(dt: &DataType, o: &JOpts, strings: Option<&[String]>) -> Vec<V> {
     a
 }
 
+/// long JSON strings: plain, multi-byte characters straddling the boundary, characters that need
+/// escapes at the boundary, strings made only of escaped characters
+pub fn long_json_strings(thorough: bool) -> Vec<String> {
+    let mut v = vec![];
+    for l in long_lengths(thorough) {
+        v.push(ascii_ramp(l));
+        v.push(straddle(l, "é", 1));
+        v.push(straddle(l, "😀", 2));
+        v.push(straddle(l, "\"", 1));
+        v.push(straddle(l, "\\", 1));
+        v.push(straddle(l, "\"\\\n\u{1}", 2));
+        v.push(straddle(l, "\u{2028}", 1));
+        v.push("\"".repeat(l));
+        v.push("\u{1}".repeat(l / 6 + 1));
+        v.push("é".repeat(l / 2) + if l % 2 == 1 { "a" } else { "" });
+    }
+    v
+}
+
 pub fn build_blocks(ctx: &Ctx) -> Vec<Block> {
     let thorough = !ctx.quick();
     let mut blocks: Vec<Block> = vec![];
+
+    // ---- long values (strings, binaries, lists): default option point and every 1-deviation point
+    {
+        let lens = long_lengths(thorough);
+        let long_s = long_json_strings(thorough);
+        let bins: Vec<V> = lens.iter().flat_map(|l| [V::B(bytes_ramp(*l)), V::B(bytes_ff00(*l))]).collect();
+        for p in dev_points(&DIM_SIZES, 1) {
+            let o = opts_from_point(&p);
+            if !valid_point(&o) || o.fmt == 1 {
+                continue;
+            }
+            let with_null = |mut a: Vec<V>| {
+                if o.nullable {
+                    a.push(V::Null);
+                }
+                Arc::new(a)
+            };
+            let short = with_null(jstrings_a0().into_iter().map(V::S).collect());
+            let mut push = |family: &'static str, dt: DataType, alpha: Arc<Vec<V>>| {
+                let n = alpha.len() as u64;
+                blocks.push(Block { family, opts: o.clone(), types: vec![dt.clone()], rows: 1, alpha: vec![alpha.clone()], mode: Mode::Product });
+                blocks.push(Block { family, opts: o.clone(), types: vec![dt.clone()], rows: 3, alpha: vec![alpha.clone()], mode: Mode::Rotation(n) });
+                blocks.push(Block { family, opts: o.clone(), types: vec![DataType::Utf8, dt.clone()], rows: 2, alpha: vec![short.clone(), alpha.clone()], mode: Mode::Rotation(n) });
+            };
+            push("long-string", DataType::Utf8, with_null(long_s.iter().cloned().map(V::S).collect()));
+            if o.strty == 0 {
+                for dt in [DataType::Binary, DataType::LargeBinary, DataType::BinaryView] {
+                    push("long-binary", dt, with_null(bins.clone()));
+                }
+                for l in &lens {
+                    push("long-binary", DataType::FixedSizeBinary(*l as i32), with_null(vec![V::B(bytes_ramp(*l)), V::B(bytes_ff00(*l)), V::B(vec![0xab; *l])]));
+                }
+                // long lists / maps (many elements) and a long string inside a nested value
+                let lists: Vec<V> = lens.iter().filter(|l| **l <= 1025).map(|l| V::L((0..*l).map(|i| if i % 7 == 3 { V::Null } else { V::I(i as i128 - 5) }).collect())).collect();
+                push("long-list", DataType::List(field("item", DataType::Int32, true)), with_null(lists));
+                let nested: Vec<V> = long_s.iter().step_by(3).map(|s| V::St(vec![V::I(1), V::S(s.clone())])).collect();
+                push("long-nested", struct_of(vec![field("a", DataType::Int32, true), field("b", DataType::Utf8, true)]), with_null(nested));
+                let maps: Vec<V> = long_s.iter().step_by(5).map(|s| V::M(vec![(V::S(s.clone()), V::S(s.clone()))])).collect();
+                push("long-nested", map_of(DataType::Utf8, true), with_null(maps));
+            }
+        }
+    }
     let (a0, a1, full) = (jstrings_a0(), jstrings_a1(), jstrings_full());
     let utf = DataType::Utf8;
 
@@ -811,11 +872,21 @@ pub fn shrink(c: &Case, stage: &'static str) -> (Case, Fail) {
             for ri in 0..cur.cols[ci].len() {
                 if let V::S(s) = cur.cols[ci][ri].clone() {
                     let chars: Vec<char> = s.chars().collect();
-                    for k in 0..chars.len() {
-                        let mut cs = chars.clone();
-                        cs.remove(k);
+                    let cands: Vec<String> = if chars.len() <= 8 {
+                        (0..chars.len())
+                            .map(|k| {
+                                let mut cs = chars.clone();
+                                cs.remove(k);
+                                cs.into_iter().collect()
+                            })
+                            .collect()
+                    } else {
+                        let h = chars.len() / 2;
+                        vec![chars[h..].iter().collect(), chars[..h].iter().collect(), chars[1..].iter().collect(), chars[..chars.len() - 1].iter().collect()]
+                    };
+                    for cand in cands {
                         let mut t = cur.clone();
-                        t.cols[ci][ri] = V::S(cs.into_iter().collect());
+                        t.cols[ci][ri] = V::S(cand);
                         if let Some(f) = fails(&t) {
                             cur = t;
                             last = f;
